@@ -10,11 +10,11 @@ from ..schema_info import FI, MI, Schema
 from ..values import TreeStrategies, field_classes, single_field_trees, tree_depth, value_class
 from ._corpus import corpus
 
-TOP_MESSAGES = ["Scalars", "Optionals", "Repeats", "Maps", "Oneofs", "Wrappers", "Times", "Tags", "Rec", "Mixed", "Leaf", "Empty", "Words", "Holder", "Box"]
+TOP_MESSAGES = ["Scalars", "Optionals", "Repeats", "Maps", "Oneofs", "Wrappers", "Times", "Tags", "Rec", "Mixed", "Leaf", "Empty", "Words", "Holder", "Box", "Solo"]
 # weights: the interesting messages more often
 _WEIGHTED = (
     ["Scalars"] * 4 + ["Optionals"] * 4 + ["Repeats"] * 4 + ["Maps"] * 4 + ["Oneofs"] * 4 + ["Wrappers"] * 2
-    + ["Times"] * 2 + ["Tags"] * 2 + ["Rec"] * 2 + ["Mixed"] * 2 + ["Leaf", "Empty"] + ["Words"] * 3 + ["Holder"] * 3 + ["Box"]
+    + ["Times"] * 2 + ["Tags"] * 2 + ["Rec"] * 2 + ["Mixed"] * 2 + ["Leaf", "Empty"] + ["Words"] * 3 + ["Holder"] * 3 + ["Box"] + ["Solo"] * 2
 )
 
 
